@@ -710,6 +710,10 @@ MiniEngine sched_engine() {
 
 } // namespace ys
 
+namespace ys {
+MiniEngine twsched_engine();
+}
+
 // addresses (type_info objects under std_rtti, heap) are part of the simulated
 // environment: switch address space randomisation off so that one seed is one
 // execution in every process
@@ -749,6 +753,18 @@ int main(int argc, char** argv) {
     int rc = 0;
     try {
         MiniEngine e = sched_engine();
+        {
+            // engine: --prop twsched, or the engine named in a replay file
+            std::string which = arg(argc, argv, "--prop", "sched");
+            if (cmd == "replay" && argc > 2) {
+                try {
+                    which = jparse(read_file(argv[2])).gets("engine", "sched");
+                } catch (std::exception&) {
+                }
+            }
+            if (which == "twsched")
+                e = twsched_engine();
+        }
         int tier = !strcmp(arg(argc, argv, "--tier", "quick"), "thorough");
         std::uint64_t base = strtoull(arg(argc, argv, "--base-seed", "1"), nullptr, 0);
         if (cmd == "run") {
